@@ -749,7 +749,8 @@ pub const C15_LITERAL_B: &[&str] = &[
     "\"41\"x", "'41'x", "\"4g\"x", "'4g'x", "\"a\"n", "'a b'n", "'01jan2020'd", "\"01jan2020\"d", "'a'dt", "\"a\"dt",
     "'12:00't", "\"12:00\"t", "'1'b", "\"1\"b", "\"a\"\"b\"", "'a''b'", "\"&v\"", "\"&v\"\"a\"x", "\"%m()41\"x", "\"a&v.b\"d",
     "1e5", "0ffx", "1.5", "1e", "$char8.", "8.2", "%str(a%%b)", "%nrstr(%(a)", "%let a=%str(%'x);", "é=\"é\"x",
-    "\"é\"", "'é'x", "\"", "'", "\"41\"x;\n\"42\"x",
+    "\"é\"", "'é'x", "\"", "'", "\"41\"x;\n\"42\"x", "cards;\n1\n;", "lines4;\na\n;;;;", "lines;\n;", "datalines4;\n;;;;",
+    "\"41\"X", "'41'X", "'a'N", "'a'D", "'a'DT", "'a'T", "'1'B",
 ];
 
 /// closed statements that leave accumulated state behind (non-empty literal buffer, several
@@ -1013,7 +1014,7 @@ pub fn run_property(prop: &'static str, cfg: &Config) -> PropRun {
             let ex = Explorer::new(cfg.threads, cfg.cap_s, if cfg.tier == Tier::Quick { 28 } else { 33 });
             // every input is lexed once per case variant (about 4 + number of letters times):
             // the three macro/string alphabets run at the full depth of the tier, the others one less
-            let mut sp = spaces::sigma_spaces(&["S1", "S2", "S4"], cfg.tier);
+            let mut sp = spaces::sigma_spaces(&["S1", "S2", "S4", "dl"], cfg.tier);
             sp.extend(spaces::shrink(spaces::sigma_spaces(&["S3", "S5", "S9"], cfg.tier), 1));
             let sp = filter_spaces(cfg, sp);
             let mut report = ex.run(
@@ -1044,7 +1045,7 @@ pub fn run_property(prop: &'static str, cfg: &Config) -> PropRun {
             report.distinct_nontrivial = ex.distinct_nontrivial.load(std::sync::atomic::Ordering::Relaxed);
             PropRun {
                 report,
-                rule: "every word of <= N atoms (S1, S2, S4) resp. <= N-1 atoms (S3, S5, S9) x {lower, UPPER, alternating (2 phases), every single-letter flip}; every keyword/mnemonic/suffix/hex/exponent spelling x all 2^n case variants alone and in host contexts; non-trivial = input contains an ASCII letter".into(),
+                rule: "every word of <= N atoms (S1, S2, S4, datalines family) resp. <= N-1 atoms (S3, S5, S9) x {lower, UPPER, alternating (2 phases), every single-letter flip}; every keyword/mnemonic/suffix/hex/exponent spelling x all 2^n case variants alone and in host contexts; non-trivial = input contains an ASCII letter".into(),
                 oracle: "dump(variant) == dump(original) except literal buffer text compared under ASCII case folding".into(),
             }
         }
